@@ -70,6 +70,8 @@ func sliceLiteralElems(v ssa.Value) []ssa.Value {
 func runC12(c *Ctx) {
 	p := c.P
 	defer runC12ParseFailureRejects(c)
+	defer runC12DigitCountAfterZeros(c)
+	defer runC12CountSpelledInDigits(c)
 
 	// ---------------------------------------------------------------- C12.1
 	c.Rule("C12.1", "the 'no timeout' sentinel is filtered before it can become a rejection", 3)
@@ -606,6 +608,15 @@ func runC12SentinelConditions(c *Ctx, sentinels []*ssa.Global) {
 						if (b.Op == token.GTR && !truth && k == 99999999) || (b.Op == token.GEQ && !truth && k == 100000000) || (b.Op == token.LEQ && truth && k == 99999999) || (b.Op == token.LSS && truth && k == 100000000) {
 							digitsChecked = true
 						}
+						// the same check on the spelling: len(digits) > 8 (false), the form the decoder has
+						// since defect D69 (a count of at most 8 characters cannot exceed 99999999)
+						if lc, isCall := b.X.(*ssa.Call); isCall {
+							if bi, isBi := lc.Call.Value.(*ssa.Builtin); isBi && bi.Name() == "len" {
+								if (b.Op == token.GTR && !truth && k == 8) || (b.Op == token.GEQ && !truth && k == 9) || (b.Op == token.LEQ && truth && k == 8) || (b.Op == token.LSS && truth && k == 9) {
+									digitsChecked = true
+								}
+							}
+						}
 					}
 				}
 				if empty {
@@ -791,5 +802,151 @@ func runC12ParseFailureRejects(c *Ctx) {
 	}
 	if n < 2 {
 		c.Bad("C12.7", "request-time code", "parse-failure-rejects", token.NoPos, "fewer than two numeric parses in error-returning request-time functions ("+itoa(n)+"): shape changed")
+	}
+}
+
+// runC12DigitCountAfterZeros: C12.8 (seed C12i).  A timeout decoder may take a short cut for
+// values that cannot be represented: "more digits than the largest representable number has"
+// clamps to the maximum without parsing.  The short cut is only right on the digits that count -
+// leading zeros stripped - otherwise `0000000000000000000005` (legal: the grammar is 1*DIGIT)
+// becomes the maximum (i.e. "no deadline") instead of five seconds.  Structural: in every
+// function that returns (time.Duration, error), an `if len(s) > K` whose taken edge returns
+// success has s originating from strings.TrimLeft(_, "0").
+func runC12DigitCountAfterZeros(c *Ctx) {
+	p := c.P
+	c.Rule("C12.8", "the too-many-digits short cut counts digits after leading zeros were stripped", 0)
+	for _, fn := range p.Funcs {
+		if !p.inScope(fn) || len(fn.Blocks) == 0 {
+			continue
+		}
+		res := fn.Signature.Results()
+		if res.Len() != 2 || res.At(0).Type().String() != "time.Duration" || !isErrorType(res.At(1).Type()) {
+			continue
+		}
+		for _, b := range fn.Blocks {
+			iff, ok := b.Instrs[len(b.Instrs)-1].(*ssa.If)
+			if !ok {
+				continue
+			}
+			bo, ok := iff.Cond.(*ssa.BinOp)
+			if !ok || (bo.Op != token.GTR && bo.Op != token.GEQ) {
+				continue
+			}
+			lc, ok := bo.X.(*ssa.Call)
+			if !ok {
+				continue
+			}
+			if bi, isB := lc.Call.Value.(*ssa.Builtin); !isB || bi.Name() != "len" {
+				continue
+			}
+			if bt, isBasic := lc.Call.Args[0].Type().Underlying().(*types.Basic); !isBasic || bt.Info()&types.IsString == 0 {
+				continue
+			}
+			// the taken edge returns success directly
+			succ := b.Succs[0]
+			ret, isRet := succ.Instrs[len(succ.Instrs)-1].(*ssa.Return)
+			if !isRet || len(ret.Results) != 2 || !IsNilConst(ret.Results[1]) {
+				continue
+			}
+			stripped := true
+			for _, o := range Origins(lc.Call.Args[0]) {
+				call, isCall := o.V.(*ssa.Call)
+				if isCall && IsCallTo(call, "strings.TrimLeft") {
+					if s, isS := ConstString(call.Call.Args[1]); isS && s == "0" {
+						continue
+					}
+				}
+				stripped = false
+			}
+			c.Check(stripped, "C12.8", FuncName(fn), "digit-count-after-zero-strip", bo.Pos(),
+				"the digit count that clamps to the maximum is taken after leading zeros were stripped",
+				"a value is clamped to the maximum duration because of the NUMBER OF DIGITS of a string that may still carry leading zeros: a zero-padded timeout (legal, 1*DIGIT) such as 0000000000000000000005 becomes 'practically no deadline' instead of five seconds")
+		}
+	}
+}
+
+// runC12CountSpelledInDigits: C12.9 (defect D69).  Every protocol spells the count of a timeout as
+// ASCII digits only (Grpc-Timeout: 1*8DIGIT unit, Connect-Timeout-Ms: digits); strconv.ParseInt
+// also accepts a sign, so a decoder that validates only the parsed number takes "+1S" and "-0S"
+// for timeouts and re-encodes them for the backend.  Wherever a timeout decoder parses text with
+// ParseInt/ParseUint/Atoi and looks at the parse error, the call is dominated by the true outcome
+// of a digits-only validator applied to the same text (a module function string -> bool whose
+// body compares bytes with '0' and '9').  Decoders that validate digit by digit in line and then
+// discard the parse error (the REST decoder) are covered by C12.6/C12.7.
+func runC12CountSpelledInDigits(c *Ctx) {
+	p := c.P
+	c.Rule("C12.9", "a timeout count is validated as ASCII digits before it is parsed", 2)
+	isDigitValidator := func(fn *ssa.Function) bool {
+		if fn == nil || !p.inScope(fn) || fn.Signature.Params().Len() != 1 || fn.Signature.Results().Len() != 1 {
+			return false
+		}
+		if bt, ok := fn.Signature.Results().At(0).Type().Underlying().(*types.Basic); !ok || bt.Kind() != types.Bool {
+			return false
+		}
+		lo, hi := false, false
+		ForEachInstr(fn, func(in ssa.Instruction) {
+			if b, ok := in.(*ssa.BinOp); ok {
+				for _, op := range []ssa.Value{b.X, b.Y} {
+					if k, isK := ConstInt(op); isK {
+						if k == '0' && (b.Op == token.LSS || b.Op == token.GEQ) {
+							lo = true
+						}
+						if k == '9' && (b.Op == token.GTR || b.Op == token.LEQ) {
+							hi = true
+						}
+					}
+				}
+			}
+		})
+		return lo && hi
+	}
+	// timeout decoders: functions that read one of the timeout headers, or string -> (Duration, error)
+	isDecoder := func(fn *ssa.Function) bool {
+		res := fn.Signature.Results()
+		if res.Len() == 2 && res.At(0).Type().String() == "time.Duration" && isErrorType(res.At(1).Type()) {
+			return true
+		}
+		for _, call := range Calls(fn) {
+			if IsCallTo(call, "(net/http.Header).Get") {
+				if k, ok := ConstString(call.Common().Args[1]); ok && strings.HasSuffix(strings.ToLower(k), "timeout-ms") {
+					return true
+				}
+			}
+		}
+		return false
+	}
+	for _, fn := range p.Funcs {
+		if !p.inScope(fn) || len(fn.Blocks) == 0 || !isDecoder(fn) {
+			continue
+		}
+		for _, call := range Calls(fn) {
+			if !IsCallTo(call, "strconv.ParseInt", "strconv.ParseUint", "strconv.Atoi") || call.Value() == nil {
+				continue
+			}
+			// is the parse error looked at?
+			used := false
+			for _, ref := range *call.Value().Referrers() {
+				if ex, ok := ref.(*ssa.Extract); ok && ex.Index == 1 && ex.Referrers() != nil && len(*ex.Referrers()) > 0 {
+					used = true
+				}
+			}
+			if !used {
+				continue
+			}
+			text := call.Common().Args[0]
+			ok := false
+			for _, f := range FactsAt(call.Block()) {
+				vc, isCall := f.Cond.(*ssa.Call)
+				if !isCall || !f.Truth || !isDigitValidator(vc.Call.StaticCallee()) {
+					continue
+				}
+				if vc.Call.Args[0] == text {
+					ok = true
+				}
+			}
+			c.Check(ok, "C12.9", FuncName(fn), "count-is-ascii-digits", call.Pos(),
+				"the text handed to the integer parser passed a digits-only validator",
+				"the count of a timeout is handed to "+N(call.Common().StaticCallee())+" without having been validated as ASCII digits: the parser accepts a sign, so +1S / -0S / +5 are taken for timeouts and forwarded re-encoded instead of being rejected as malformed")
+		}
 	}
 }
